@@ -9,6 +9,7 @@ package explore
 import (
 	"fmt"
 	"reflect"
+	"runtime"
 	"strings"
 	"testing/synctest"
 	"time"
@@ -114,12 +115,19 @@ func RunExpect(sc *Scenario, prefix []int, expect []Point) (x *Exec) {
 		x.Kind, x.Detail = "setup-failed", err.Error()
 		return x
 	}
+	abandoned := false
 	defer func() {
-		if sc.Cleanup != nil {
+		if sc.Cleanup != nil && !abandoned {
 			sc.Cleanup(st)
 		}
 	}()
 	vsched.Begin(sc.Filter)
+	// Goroutines of the code under test that were already waiting inside a select when the
+	// exploration began are not under control yet (they passed their scheduling point before it
+	// existed). Their loops are ticker driven: let the shortest period elapse once, so that each
+	// of them comes round to its select again and parks there.
+	time.Sleep(150 * time.Millisecond)
+	synctest.Wait()
 	for _, th := range sc.Threads {
 		th := th
 		go func() {
@@ -217,7 +225,7 @@ func RunExpect(sc *Scenario, prefix []int, expect []Point) (x *Exec) {
 			for _, p := range ps {
 				d = append(d, p.Describe())
 			}
-			x.Kind, x.Detail = "deadlock", "no enabled thread; parked: "+strings.Join(d, " | ")
+			x.Kind, x.Detail = "deadlock", "no enabled thread; parked: "+strings.Join(d, " | ")+"\nblocked goroutines:\n"+blockedStacks()
 			break
 		}
 		if x.Steps >= horizon {
@@ -238,7 +246,7 @@ func RunExpect(sc *Scenario, prefix []int, expect []Point) (x *Exec) {
 				bad = true
 			}
 			if bad {
-				vsched.End()
+				abandoned = true
 				d := &Divergence{Scenario: sc.Name, At: i, Got: pt.Alts, Trace: x.Trace()}
 				if i < len(expect) {
 					d.Want = expect[i].Alts
@@ -278,6 +286,12 @@ func RunExpect(sc *Scenario, prefix []int, expect []Point) (x *Exec) {
 		}
 		vsched.Release(a.t, a.clause)
 	}
+	if x.Deadlock || x.Horizon {
+		// the instance is stuck (or still running): leave its threads parked and do not touch it
+		abandoned = true
+		vsched.Abandon()
+		return x
+	}
 	vsched.End()
 	synctest.Wait()
 	if x.Kind == "" && sc.Check != nil && !x.Horizon {
@@ -288,12 +302,14 @@ func RunExpect(sc *Scenario, prefix []int, expect []Point) (x *Exec) {
 
 // Stats of an exploration.
 type Stats struct {
-	Executions int64
-	Points     int64
-	MaxPoints  int
-	Outcomes   map[string]int64
-	Horizon    int64
-	Capped     bool
+	Diverged        int64
+	FirstDivergence string
+	Executions      int64
+	Points          int64
+	MaxPoints       int
+	Outcomes        map[string]int64
+	Horizon         int64
+	Capped          bool
 }
 
 // Explore enumerates every schedule with at most bound deviations. Mine selects the level-1/2
@@ -302,23 +318,40 @@ type Stats struct {
 func Explore(sc *Scenario, bound int, mine func(key string) bool, onExec func(x *Exec) bool) *Stats {
 	st := &Stats{Outcomes: map[string]int64{}}
 	stop := false
-	var rec func(prefix []int, spent int, depth int, parent []Point)
-	rec = func(prefix []int, spent int, depth int, parent []Point) {
+	// Sharding: the root execution and its children (one deviation) are executed by every shard —
+	// their points are needed to enumerate the next level — but each is reported by one shard
+	// only; from the second level on a subtree belongs to exactly one shard.
+	var rec func(prefix []int, spent int, depth int, parent []Point, report bool)
+	rec = func(prefix []int, spent int, depth int, parent []Point, report bool) {
 		if stop {
 			return
 		}
-		x := RunExpect(sc, prefix, parent)
-		st.Executions++
-		st.Points += int64(len(x.Points))
-		if len(x.Points) > st.MaxPoints {
-			st.MaxPoints = len(x.Points)
-		}
-		if x.Horizon {
-			st.Horizon++
-		}
-		if !onExec(x) {
-			stop = true
+		x, div := runGuarded(sc, prefix, parent)
+		if div != nil {
+			// The code under test made a choice the explorer does not control (for instance the
+			// iteration order of a map): this subtree cannot be replayed faithfully. It is counted
+			// and skipped; the run is reported as not exhaustive.
+			if report {
+				st.Diverged++
+				if st.FirstDivergence == "" {
+					st.FirstDivergence = div.Error()
+				}
+			}
 			return
+		}
+		if report {
+			st.Executions++
+			st.Points += int64(len(x.Points))
+			if len(x.Points) > st.MaxPoints {
+				st.MaxPoints = len(x.Points)
+			}
+			if x.Horizon {
+				st.Horizon++
+			}
+			if !onExec(x) {
+				stop = true
+				return
+			}
 		}
 		// spent = deviations used by prefix; walk the points after the prefix
 		cost := spent
@@ -337,15 +370,68 @@ func Explore(sc *Scenario, bound int, mine func(key string) bool, onExec func(x 
 					continue
 				}
 				np := append(append([]int(nil), x.Choices[:i]...), a)
-				if depth == 0 && mine != nil && !mine(fmt.Sprint(np)) {
-					continue
+				own := mine == nil || mine(fmt.Sprint(np))
+				switch {
+				case depth == 0:
+					if !own && c >= bound {
+						continue // a leaf that belongs to another shard
+					}
+					rec(np, c, depth+1, x.Points, own)
+				case depth == 1:
+					if !own {
+						continue
+					}
+					rec(np, c, depth+1, x.Points, true)
+				default:
+					rec(np, c, depth+1, x.Points, true)
 				}
-				rec(np, c, depth+1, x.Points)
 			}
 			cost += p.Costs[0]
 		}
 	}
-	rec(nil, 0, 0, nil)
+	rec(nil, 0, 0, nil, mine == nil || mine("root"))
 	st.Capped = stop
 	return st
+}
+
+// blockedStacks returns the stacks of the goroutines that are inside the code under test (used
+// to explain a deadlock: threads blocked outside a scheduling point are not in the parked list).
+func blockedStacks() string {
+	buf := make([]byte, 4<<20)
+	n := runtime.Stack(buf, true)
+	var keep []string
+	for _, g := range strings.Split(string(buf[:n]), "\n\n") {
+		if !strings.Contains(g, "kektordb/pkg/") || strings.Contains(g, "AsyncCompactor).runLoop") {
+			continue
+		}
+		lines := strings.Split(g, "\n")
+		var short []string
+		for i, l := range lines {
+			if i == 0 || strings.Contains(l, "kektordb/") && !strings.HasPrefix(l, "\t") {
+				short = append(short, strings.TrimSpace(l))
+			}
+			if len(short) > 9 {
+				break
+			}
+		}
+		keep = append(keep, strings.Join(short, " <- "))
+		if len(keep) > 12 {
+			break
+		}
+	}
+	return strings.Join(keep, "\n")
+}
+
+func runGuarded(sc *Scenario, prefix []int, parent []Point) (x *Exec, div *Divergence) {
+	defer func() {
+		if r := recover(); r != nil {
+			if d, ok := r.(*Divergence); ok {
+				div = d
+				vsched.Abandon()
+				return
+			}
+			panic(r)
+		}
+	}()
+	return RunExpect(sc, prefix, parent), nil
 }
